@@ -291,6 +291,11 @@ def predicates(cfg, out, M_last):
         return [("C05_finite", "non-finite entries in the returned triple")]
     if not np.all(np.isfinite(M_last)):
         return [("C05_finite", "non-finite matrix handed to the SVD back end during mask imputation")]
+    if cfg["mask"] is not None and cfg["n"] is not None:
+        # C05_mask_loop_spec: imputation never changes an observed entry (matrix * 1 + R * 0 is exact in floating point)
+        obs = np.asarray(cfg["mask"]) == 1
+        if M_last.shape != cfg["matrix"].shape or not np.array_equal(M_last[obs], cfg["matrix"][obs]):
+            bad.append(("C05_mask_observed", "the matrix handed to the SVD back end after imputation differs from the input on observed entries"))
     sig = np.linalg.svd(M_last, compute_uv=False)
     smax = max(float(sig.max()), 1e-300) if sig.size else 1.0
     loose = method == "symeig_svd"
